@@ -24,5 +24,10 @@ let dispatch = function
       let rows = next_mat next_z in let a = next_nat () in let b = next_nat () in
       let c = next_nat () in let d = next_nat () in
       p_pair p_bool (p_mat p_z) (run_rbu_swap rows a b c d)
+  | "rbufull" ->
+      let rows = next_mat next_z in let alpha = next_q () in let s = next_list next_draw in
+      let (((code, out), tr), left) = run_rbu rows alpha s in
+      ps "{\"code\":"; p_nat code; ps ",\"out\":"; p_mat p_z out; ps ",\"left\":"; p_nat left;
+      ps ",\"trace\":"; p_list p_event tr; ps "}"
   | f -> failwith ("unknown function " ^ f)
 let () = main dispatch
